@@ -47,7 +47,7 @@ Proof. rewrite flag_keys_mapg. apply same_skel_mapg. apply sk_flagF. Qed.
 Lemma same_skel_flag_with_products g k : same_skel g (flag_with_products g k).
 Proof. unfold flag_with_products. eapply same_skel_trans; apply same_skel_flag_keys. Qed.
 Lemma same_skel_flag_after_sources g k : same_skel g (flag_after_sources g k).
-Proof. unfold flag_after_sources. apply same_skel_flag_keys. Qed.
+Proof. unfold flag_after_sources, flag_after_sources_with. apply same_skel_flag_keys. Qed.
 
 Lemma same_skel_fold_trigger body l : forall g,
   same_skel g (fold_left (fun acc k => run_trigger body k None acc) l g).
@@ -282,7 +282,7 @@ Lemma skel_detach_step g k s0 c :
   g_others (detach_step g k) = map (odet (k :: S)) (g_others g) /\
   g_deps (detach_step g k) = g_deps g.
 Proof.
-  intros E0 Ec S. unfold detach_step. rewrite E0, Ec.
+  intros E0 Ec S. unfold detach_step, detach_step_with. fold flag_after_sources. rewrite E0, Ec.
   set (g1 := set_detached_nodes g [k] true).
   set (g1' := with_steps g1 (map (fun s => if s_key s =? k then set_place s true None else s) (g_steps g1))).
   set (g2 := if s_detached s0 then g1' else set_detached_nodes g1' (below g k) true).
@@ -319,7 +319,7 @@ Qed.
 Lemma skel_detach_step_nocre g k :
   (forall s0, find_step g k = Some s0 -> s_creator s0 = None) -> same_skel g (detach_step g k).
 Proof.
-  intros H. unfold detach_step. destruct (find_step g k) as [s0|] eqn:E0; [|apply same_skel_refl].
+  intros H. unfold detach_step, detach_step_with. fold flag_after_sources. destruct (find_step g k) as [s0|] eqn:E0; [|apply same_skel_refl].
   rewrite (H s0 eq_refl).
   eapply same_skel_trans; [apply same_skel_flag_with_products | apply same_skel_flag_after_sources].
 Qed.
